@@ -179,12 +179,24 @@ func rulesC12(c *Ctx) {
 			dispatch = append(dispatch, g.callVertices(c.FnObj(pM, "StreamableHTTPHandler", n))...)
 		}
 		c.Pin("ServeHTTP dispatch calls", len(dispatch), 2)
-		loop := []leafMatcher{fieldIs("DisableLocalhostProtection", triFalse), debugFlagOff(), identIs("ok", triTrue), nilTestOf("localAddr", triFalse),
-			callIs("IsLoopback", "localAddr", triTrue), callIs("IsLoopback", "Host", triFalse)}
-		c.gateScenario(sh, "streamable:loopback-listener-foreign-Host", anyOf(loop...)(sh), dispatch, []int64{403}, "loopback-bound listener, non-loopback Host")
-		c.gateScenario(sh, "streamable:cross-origin-check-fails", anyOf(nilTestOf("CrossOriginProtection", triFalse), nilTestOf("err", triFalse), callIs("IsLoopback", "localAddr", triFalse))(sh), dispatch, []int64{403}, "CrossOriginProtection.Check fails")
-		c.gateScenario(sh, "streamable:unsupported-version-header", anyOf(cmpIs("protocolVersion", token.NEQ, triTrue), callIs("Contains", "supportedProtocolVersions", triFalse), cmpIs("protocolVersion", token.LSS, triTrue),
-			callIs("IsLoopback", "localAddr", triFalse), nilTestOf("CrossOriginProtection", triTrue))(sh), dispatch, []int64{400}, "declared legacy protocol version not supported")
+		// locals by role (never by name): the listener address and its comma-ok come from the type assertion to net.Addr,
+		// the declared version from Header.Get(protocolVersionHeader), the cross-origin error from the Check call
+		loopOf := func(f *Func, hostLoopback tri) []leafMatcher {
+			addr, okv := typeAssertVars(f, "net", "Addr")
+			return []leafMatcher{fieldIs("DisableLocalhostProtection", triFalse), debugFlagOff(), objIs(okv, triTrue), nilObj(addr, triFalse),
+				callArgMentions("IsLoopback", addr, triTrue), callArgField("IsLoopback", "Host", hostLoopback)}
+		}
+		addrSH, _ := typeAssertVars(sh, "net", "Addr")
+		pvVar := sh.VarFromCallWhere(func(ce *ast.CallExpr) bool {
+			fn := sh.Callee(ce)
+			return fn != nil && fn.Name() == "Get" && len(ce.Args) == 1 && sh.ObjOf(ce.Args[0]) == c.Obj(pM, "protocolVersionHeader")
+		}, 0)
+		coErr := sh.VarFromCallNamed("Check", 0)
+		c.Need(addrSH != nil && pvVar != nil && coErr != nil, "ServeHTTP: listener address, declared version and cross-origin error variables")
+		c.gateScenario(sh, "streamable:loopback-listener-foreign-Host", anyOf(loopOf(sh, triFalse)...)(sh), dispatch, []int64{403}, "loopback-bound listener, non-loopback Host")
+		c.gateScenario(sh, "streamable:cross-origin-check-fails", anyOf(nilTestOf("CrossOriginProtection", triFalse), nilObj(coErr, triFalse), callArgMentions("IsLoopback", addrSH, triFalse))(sh), dispatch, []int64{403}, "CrossOriginProtection.Check fails")
+		c.gateScenario(sh, "streamable:unsupported-version-header", anyOf(cmpObj(pvVar, token.NEQ, triTrue), callIs("Contains", "supportedProtocolVersions", triFalse), cmpObj(pvVar, token.LSS, triTrue),
+			callArgMentions("IsLoopback", addrSH, triFalse), nilTestOf("CrossOriginProtection", triTrue))(sh), dispatch, []int64{400}, "declared legacy protocol version not supported")
 		// body limit: every path to dispatch passes the MaxBytesReader wrap when the limit is positive
 		var wrap = -1
 		for _, w := range Writes(sh.Body, false) {
@@ -217,10 +229,13 @@ func rulesC12(c *Ctx) {
 				}
 			}
 			c.Need(len(tgt) >= 1, name+": transport.ServeHTTP")
-			post := []leafMatcher{cmpIs("req.Method", token.NEQ, triFalse), cmpIs("req.Method", token.EQL, triFalse), identIs("legacySessions", triFalse)}
+			sa := c.FnObj(pM, "", "streamableAccepts")
+			jsonOK, streamOK := f.VarFromCall(sa, 0), f.VarFromCall(sa, 1)
+			c.Need(jsonOK != nil && streamOK != nil, name+": jsonOK, streamOK := streamableAccepts(...)")
+			post := []leafMatcher{cmpPath("Request.Method", token.NEQ, triFalse), cmpPath("Request.Method", token.EQL, triFalse), objIs(compatFlagVar(f), triFalse)}
 			c.gateScenario(f, name+":wrong-content-type", anyOf(append(post, debugFlagOff(), cmpIs("baseMediaType", token.NEQ, triTrue))...)(f), tgt, []int64{415}, "POST Content-Type is not application/json")
-			c.gateScenario(f, name+":accept-lacks-json", anyOf(append(post, debugFlagOff(), cmpIs("baseMediaType", token.NEQ, triFalse), identIs("jsonOK", triFalse))...)(f), tgt, []int64{400}, "Accept does not admit application/json")
-			c.gateScenario(f, name+":accept-lacks-event-stream", anyOf(append(post, debugFlagOff(), cmpIs("baseMediaType", token.NEQ, triFalse), identIs("jsonOK", triTrue), identIs("streamOK", triFalse))...)(f), tgt, []int64{400}, "Accept does not admit text/event-stream")
+			c.gateScenario(f, name+":accept-lacks-json", anyOf(append(post, debugFlagOff(), cmpIs("baseMediaType", token.NEQ, triFalse), objIs(jsonOK, triFalse))...)(f), tgt, []int64{400}, "Accept does not admit application/json")
+			c.gateScenario(f, name+":accept-lacks-event-stream", anyOf(append(post, debugFlagOff(), cmpIs("baseMediaType", token.NEQ, triFalse), objIs(jsonOK, triTrue), objIs(streamOK, triFalse))...)(f), tgt, []int64{400}, "Accept does not admit text/event-stream")
 		}
 		gf := c.Fn(pM, "StreamableHTTPHandler", "serveStatefulGET")
 		gg := gf.Graph()
@@ -234,15 +249,17 @@ func rulesC12(c *Ctx) {
 				}
 			}
 		}
-		c.gateScenario(gf, "serveStatefulGET:accept-lacks-event-stream", anyOf(identIs("streamOK", triFalse))(gf), gt, []int64{400}, "GET Accept does not admit text/event-stream")
+		c.gateScenario(gf, "serveStatefulGET:accept-lacks-event-stream", anyOf(objIs(gf.VarFromCall(c.FnObj(pM, "", "streamableAccepts"), 1), triFalse))(gf), gt, []int64{400}, "GET Accept does not admit text/event-stream")
 
 		// --- servePOST body gates
 		sp := c.Fn(pM, "streamableServerConn", "servePOST")
 		spg := sp.Graph()
 		sends := sendVertices(sp, spg, c.Field(pM, "streamableServerConn", "incoming"))
 		c.Pin("servePOST publish sites", len(sends), 2)
-		c.gateScenario(sp, "servePOST:body-too-large", anyOf(cmpIs("Values", token.GTR, triFalse), nilTestOf("err", triFalse), callIs("As", "err", triTrue))(sp), sends, []int64{413}, "body exceeds the limit (MaxBytesError)")
-		c.gateScenario(sp, "servePOST:empty-body", anyOf(cmpIs("Values", token.GTR, triFalse), nilTestOf("err", triTrue), cmpIs("len(body)", token.EQL, triTrue))(sp), sends, []int64{400}, "empty body")
+		bodyVar, readErr := sp.VarFromCallNamed("ReadAll", 0), sp.VarFromCallNamed("ReadAll", 1)
+		c.Need(bodyVar != nil && readErr != nil, "servePOST: body, err := io.ReadAll(req.Body)")
+		c.gateScenario(sp, "servePOST:body-too-large", anyOf(cmpIs("Values", token.GTR, triFalse), nilObj(readErr, triFalse), callArgMentions("As", readErr, triTrue))(sp), sends, []int64{413}, "body exceeds the limit (MaxBytesError)")
+		c.gateScenario(sp, "servePOST:empty-body", anyOf(cmpIs("Values", token.GTR, triFalse), nilObj(readErr, triTrue), lenCmpObj(bodyVar, token.EQL, triTrue))(sp), sends, []int64{400}, "empty body")
 		// header mirror: validateMcpHeaders error → 400 + -32020 and nothing published
 		vmh := c.FnObj(pM, "", "validateMcpHeaders")
 		vv := spg.callVertices(vmh)
@@ -293,7 +310,8 @@ func rulesC12(c *Ctx) {
 			}
 			return 0, false
 		}
-		c.gateScenario(sp, "servePOST:single-message-with-bad-mirror-headers", anyOf(identIs("isBatch", triFalse), cmpIs("len(incoming)", token.EQL, triTrue), verrM)(sp), sends, []int64{400}, "a single message whose Mcp-* headers do not mirror the body")
+		rb := c.FnObj(pM, "", "readBatch")
+		c.gateScenario(sp, "servePOST:single-message-with-bad-mirror-headers", anyOf(objIs(sp.VarFromCall(rb, 1), triFalse), lenCmpObj(sp.VarFromCall(rb, 0), token.EQL, triTrue), verrM)(sp), sends, []int64{400}, "a single message whose Mcp-* headers do not mirror the body")
 		// validateMcpHeaders covers every non-batch single message; all publish sites come after it
 		for i, s := range sends {
 			c.Check(spg.ReachableFrom(vv[0])[s] && !spg.ReachableFrom(s)[vv[0]], "servePOST:publish#"+itoa(i)+"-after-header-validation", sp, spg.Node(s), "publication happens after header validation")
@@ -388,8 +406,9 @@ func rulesC12(c *Ctx) {
 			}
 		}
 		c.Need(len(st) == 1, "SSEHandler: session.ServeHTTP")
-		c.gateScenario(sse, "sse:loopback-listener-foreign-Host", anyOf(loop...)(sse), st, []int64{403}, "loopback-bound listener, non-loopback Host")
-		c.gateScenario(sse, "sse:wrong-content-type", anyOf(debugFlagOff(), cmpIs("req.Method", token.EQL, triTrue), callIs("IsLoopback", "localAddr", triFalse), cmpIs("mediaType", token.NEQ, triTrue))(sse), st, []int64{415}, "POST Content-Type is not application/json")
+		addrSSE, _ := typeAssertVars(sse, "net", "Addr")
+		c.gateScenario(sse, "sse:loopback-listener-foreign-Host", anyOf(loopOf(sse, triFalse)...)(sse), st, []int64{403}, "loopback-bound listener, non-loopback Host")
+		c.gateScenario(sse, "sse:wrong-content-type", anyOf(debugFlagOff(), cmpPath("Request.Method", token.EQL, triTrue), callArgMentions("IsLoopback", addrSSE, triFalse), cmpObj(sse.VarFromCallNamed("ParseMediaType", 0), token.NEQ, triTrue))(sse), st, []int64{415}, "POST Content-Type is not application/json")
 	})
 
 	c.Rule("R-C12-2", "the server validates exactly the mirror headers the client sets (Mcp-Method, Mcp-Name for the same methods, Mcp-Param-* from the same annotations)", func() {
@@ -439,7 +458,7 @@ func rulesC12(c *Ctx) {
 				var leaves []Atom
 				splitAtoms(cond, false, &leaves)
 				for _, a := range leaves {
-					if x, y, op, ok := binaryCmp(a.E); ok && op == token.EQL && exprStr(x) == "msg.Method" {
+					if x, y, op, ok := binaryCmp(a.E); ok && op == token.EQL && val.FieldPath(x) == "Request.Method" {
 						if s, ok := val.ConstString(y); ok {
 							serverMethods[s] = true
 						}
@@ -480,14 +499,27 @@ func rulesC12(c *Ctx) {
 				}
 			}
 		}
-		okMeta := first >= 0 && hasAtom(smg.GuardsAt(first), func(a Atom) bool { return a.Val && strings.Contains(exprStr(a.E), "pv != \"\"") })
+		metaVer := sm.VarFromCall(pvm, 0)
+		okMeta := first >= 0 && metaVer != nil && hasAtom(smg.GuardsAt(first), func(a Atom) bool {
+			x, y, op, ok := binaryCmp(a.E)
+			s, isC := sm.ConstString(y)
+			return ok && op == token.NEQ && a.Val && sm.ObjOf(x) == metaVer && isC && s == ""
+		})
 		pv := smg.callVertices(pvm)
 		c.Check(okMeta && len(pv) == 1 && smg.Dominates(pv[0], first), "client:version-header-mirrors-meta", sm, nil, "the version header is taken from the message's _meta.protocolVersion first (so header and body agree)")
 	})
 
 	c.Rule("R-C12-4", "header bindings are values, not views: the path recorded for each x-mcp-header annotation is a fresh slice, never an append onto the recursion's shared prefix", func() {
 		cp := c.Fn(pM, "", "collectParamHeaderAnnotations")
-		prefix := cp.Param("prefix")
+		// the recursion's path prefix: the []string parameter
+		prefix := cp.ParamWhere(func(t types.Type) bool {
+			sl, ok := t.(*types.Slice)
+			if !ok {
+				return false
+			}
+			b, ok := sl.Elem().(*types.Basic)
+			return ok && b.Kind() == types.String
+		})
 		c.Need(prefix != nil, "collectParamHeaderAnnotations: prefix parameter")
 		n := 0
 		for _, call := range cp.AllCalls(cp.Body, false) {
@@ -502,7 +534,14 @@ func rulesC12(c *Ctx) {
 			if w.RHS == nil {
 				continue
 			}
-			if ce, ok := ast.Unparen(w.RHS).(*ast.CallExpr); ok && exprStr(w.LHS) == "path" {
+			// the variable recorded as binding path: the value of the Path key in the paramHeaderBinding literal
+			var pathVar types.Object
+			inspectNoLit(cp.Body, func(n ast.Node) {
+				if kv, ok := n.(*ast.KeyValueExpr); ok && exprStr(kv.Key) == "Path" {
+					pathVar = cp.ObjOf(kv.Value)
+				}
+			})
+			if ce, ok := ast.Unparen(w.RHS).(*ast.CallExpr); ok && pathVar != nil && cp.ObjOf(w.LHS) == pathVar {
 				if cp.BuiltinName(ce) == "make" {
 					fresh = true
 				}
@@ -562,7 +601,21 @@ func rulesC12(c *Ctx) {
 				}
 				inner, isC2 := ast.Unparen(lc.Args[0]).(*ast.CallExpr)
 				return isC2 && vph.Callee(inner) != nil && vph.Callee(inner).Name() == "Values"
-			}) || hasAtom(guards, func(a Atom) bool { return !a.Val && (exprStr(a.E) == "ok" || exprStr(a.E) == "present") })
+			}) || hasAtom(guards, func(a Atom) bool {
+				// the comma-ok of a direct map lookup in the header
+				if a.Val {
+					return false
+				}
+				o := vph.ObjOf(a.E)
+				for _, w := range Writes(vph.Body, false) {
+					if as, isAs := w.Stmt.(*ast.AssignStmt); isAs && len(as.Lhs) == 2 && len(as.Rhs) == 1 && o != nil && vph.ObjOf(as.Lhs[1]) == o {
+						if _, _, isIx := indexOf(as.Rhs[0]); isIx {
+							return true
+						}
+					}
+				}
+				return false
+			})
 			if emitsEmpty {
 				c.Check(byPresence, "validateParamHeaders:missing-decided-by-presence#"+itoa(i), vph, r, "the client can legitimately send an empty header value (argument \"\"), so the server may call a header missing only when it is absent (header.Values / map lookup), not when Get() returns \"\" (guards: %s)", atomsString(guards))
 			} else {
@@ -610,4 +663,112 @@ func keysOf(m map[string]bool) []string {
 	}
 	sort.Strings(out)
 	return out
+}
+
+// ---- object-based leaf matchers (independent of variable names) --------------------------------
+
+// objIs: an identifier denoting obj evaluates to v.
+func objIs(obj types.Object, v tri) leafMatcher {
+	return func(f *Func, e ast.Expr) (tri, bool) {
+		if id, ok := e.(*ast.Ident); ok && obj != nil && f.ObjOf(id) == obj {
+			return v, true
+		}
+		return 0, false
+	}
+}
+
+// nilObj: `obj == nil` / `obj != nil`.
+func nilObj(obj types.Object, isNil tri) leafMatcher {
+	return func(f *Func, e ast.Expr) (tri, bool) {
+		x, twn, ok := NilTest(e)
+		if !ok || obj == nil || f.ObjOf(x) != obj {
+			return 0, false
+		}
+		if twn {
+			return isNil, true
+		}
+		return triNot(isNil), true
+	}
+}
+
+// cmpObj: a comparison whose left operand denotes obj, with operator op.
+func cmpObj(obj types.Object, op token.Token, v tri) leafMatcher {
+	return func(f *Func, e ast.Expr) (tri, bool) {
+		x, _, o, ok := binaryCmp(e)
+		if ok && o == op && obj != nil && f.ObjOf(x) == obj {
+			return v, true
+		}
+		return 0, false
+	}
+}
+
+// lenCmpObj: len(obj) OP <something>.
+func lenCmpObj(obj types.Object, op token.Token, v tri) leafMatcher {
+	return func(f *Func, e ast.Expr) (tri, bool) {
+		x, _, o, ok := binaryCmp(e)
+		if !ok || o != op || obj == nil {
+			return 0, false
+		}
+		if ce, isC := ast.Unparen(x).(*ast.CallExpr); isC && f.BuiltinName(ce) == "len" && f.ObjOf(ce.Args[0]) == obj {
+			return v, true
+		}
+		return 0, false
+	}
+}
+
+// cmpPath: a comparison whose left operand has the given type-rooted field path (e.g. "Request.Method").
+func cmpPath(path string, op token.Token, v tri) leafMatcher {
+	return func(f *Func, e ast.Expr) (tri, bool) {
+		x, _, o, ok := binaryCmp(e)
+		if ok && o == op && f.FieldPath(x) == path {
+			return v, true
+		}
+		return 0, false
+	}
+}
+
+// callArgMentions: a call of a function named fn whose first argument mentions obj.
+func callArgMentions(fn string, obj types.Object, v tri) leafMatcher {
+	return func(f *Func, e ast.Expr) (tri, bool) {
+		ce, ok := e.(*ast.CallExpr)
+		if !ok || obj == nil || len(ce.Args) == 0 {
+			return 0, false
+		}
+		if c := f.Callee(ce); c == nil || c.Name() != fn || !f.Mentions(ce.Args[0], obj) {
+			return 0, false
+		}
+		return v, true
+	}
+}
+
+// callArgField: a call of fn whose first argument is a selector of the field named field.
+func callArgField(fn, field string, v tri) leafMatcher {
+	return func(f *Func, e ast.Expr) (tri, bool) {
+		ce, ok := e.(*ast.CallExpr)
+		if !ok || len(ce.Args) == 0 {
+			return 0, false
+		}
+		if c := f.Callee(ce); c == nil || c.Name() != fn {
+			return 0, false
+		}
+		if s, ok := ast.Unparen(ce.Args[0]).(*ast.SelectorExpr); ok && s.Sel.Name == field {
+			return v, true
+		}
+		return 0, false
+	}
+}
+
+// typeAssertVars returns (value, ok) of `v, ok := x.(pkg.name)` in f's own body.
+func typeAssertVars(f *Func, pkgPath, name string) (types.Object, types.Object) {
+	var a, b types.Object
+	inspectNoLit(f.Body, func(n ast.Node) {
+		as, ok := n.(*ast.AssignStmt)
+		if !ok || len(as.Lhs) != 2 || len(as.Rhs) != 1 {
+			return
+		}
+		if ta, ok := ast.Unparen(as.Rhs[0]).(*ast.TypeAssertExpr); ok && ta.Type != nil && isNamedType(f.TypeOf(ta.Type), pkgPath, name) {
+			a, b = f.ObjOf(as.Lhs[0]), f.ObjOf(as.Lhs[1])
+		}
+	})
+	return a, b
 }
